@@ -8,6 +8,7 @@ import itertools
 
 from ..engine import RunResult
 from ..fingerprint import digest
+from ..fingerprint import public_digest
 from ..repo import library as libmod
 from ..repo import model as M
 
@@ -260,7 +261,7 @@ def shape_of(lib):
 
 def snapshot(lib):
     return (
-        tuple(digest(b) for b in lib.blocks),
+        tuple(public_digest(b) for b in lib.blocks),
         tuple(sorted(lib.entries_dict)),
         tuple(sorted(lib.strings_dict)),
     )
